@@ -46,6 +46,14 @@ def corpus_cases(which):
                 decls.append(("iface", "IB%d" % lvl, prev, meths("m%d_" % lvl, n)))
                 prev = "IB%d" % lvl
             out.append(fs1(decls, big=True))
+    # the same error / constant / method names in unrelated interfaces and in siblings of one base, at
+    # different positions: numbers are per flattened interface, never per name across the file
+    E = lambda n: ("error", n)
+    M = lambda n: ("method", n, [], False, None)
+    out.append(fs1([("iface", "IBase", None, [E("INVALID"), M("open")]), ("iface", "ILogger", None, [E("NOISE"), E("INVALID"), M("open"), M("log")]),
+                    ("iface", "IClient", "IBase", [E("BUSY"), E("DENIED"), M("send")]), ("iface", "IOther", "IBase", [M("send"), E("DENIED"), E("BUSY")])]))
+    out.append(fs1([("iface", "IFoo", None, [E("X"), E("Y"), M("a"), M("b")]), ("iface", "IBar", None, [M("b"), E("Y"), M("a"), E("X")]),
+                    ("iface", "IBaz", "IBar", [E("Z"), M("c")]), ("iface", "IQux", "IFoo", [M("c"), E("Z")])]))
     # a name of a non-immediate ancestor declared again (method, error, constant), distance 2..4
     for dist in (2, 3, 4):
         for kind in ("method", "error", "const"):
